@@ -29,6 +29,10 @@ SURPLUS_OPEN = ["if (vf_c) then", "do vf_i = 1, 2", "select case (vf_i)", "where
                 "associate (vf_a => vf_b)", "do while (vf_c)"]
 SURPLUS_OPEN08 = ["block", "critical", "do concurrent (vf_i = 1:2)"]
 
+# statement kinds that share one matcher (one mechanism, one key)
+KIND_FAMILY = {"do_concurrent": "do", "label_do": "do", "function": "subprogram", "subroutine": "subprogram",
+               "component": "typedecl", "proc_component": "procdecl"}
+
 EXEC_KINDS = {"assign", "call", "print", "write", "read", "if_stmt", "goto", "stop", "continue", "allocate", "deallocate",
               "nullify", "open", "close", "where_stmt", "forall_stmt", "ptr_assign", "return", "cycle", "exit"}
 
@@ -53,7 +57,14 @@ def mutations(P):
         if s.role == "open" and s.cid is not None:
             opener[s.cid] = i
     f08 = P.std == "f2008"
+    has_prog = any(x.kind == "program" for x in st)
+    bare_main_at = next((k for k, x in enumerate(st) if x.kind == "end_program"), None) if not has_prog else None
     for i, s in enumerate(st):
+        if s.role == "close" and "unit_close" in s.flags and s.depth == 0 and bare_main_at is not None and i < bare_main_at \
+                and st[i + 1].unit == st[bare_main_at].unit:
+            # the unit in front of a PROGRAM-less main program: without its END it simply runs on to the main
+            # program's END - wrong statement order perhaps, but properly terminated; not certainly ill-nested
+            continue
         if s.role == "close":
             if s.kind in ("do_term_continue", "do_term_action") or (s.kind == "end_do" and s.label):
                 yield "delete-do-terminator", "%d:%s" % (i, s.src()), lines[:i] + lines[i + 1:]
@@ -166,6 +177,7 @@ def check(payload):
             kind = P.stmts[int(desc.split(":")[0].split("@")[0])].kind
         except Exception:
             kind = "?"
+        kind = KIND_FAMILY.get(kind, kind)
         key = "accepted:%s@%s" % (cls, kind)
         if info and any("attached to no tree node" in x for x in info):
             key = "accepted-with-statements-dropped:%s@%s" % (cls, kind)
